@@ -1,6 +1,7 @@
 import GixModel.Lemmas.C26Append
 import GixModel.Lemmas.C26Append2
 import GixModel.Lemmas.C26Append3
+import GixModel.Lemmas.C26Append4
 import GixModel.Lemmas.C28Body
 /-
 C28 — what `load` reads back from a written file, in terms of the view; used for
@@ -44,7 +45,6 @@ which the writer adds nothing or exactly the final newline: the written text loa
 view (headers and entries per section) and the same comments per section. -/
 theorem reparse_edited (f : FileS)
     (hs : fileFromBytes (render f.toFile.events) = some f.toFile)
-    (hbom : noBomHead (render f.toFile.events) = true) (hcr : (render f.toFile.events).getLast? ≠ some 13)
     (hfin : f.toFile.normal = true ∨
       (f.toFile.aug = f.toFile.events ++ [.newline (detectNewline f.toFile)] ∧
         ∃ e, f.toFile.events.getLast? = some e ∧ (isValueEnd e = true ∨ evIsWs e = true ∨ isHeaderEv e = true ∨
@@ -73,17 +73,23 @@ theorem reparse_edited (f : FileS)
       rw [this] at ha
       have := congrArg List.length ha
       simp at this
+    have hnb : noBomHead (render f.toFile.events) = true := by
+      have h0 := hs
+      unfold fileFromBytes parseEvents at h0
+      simp only [Option.map_eq_some_iff] at h0
+      obtain ⟨_, ⟨revs, hr, _⟩, _⟩ := h0
+      exact noBomHead_of_parse hr (bomLen_of_lossless hs rfl)
     have hF : fileFromBytes (render f.toFile.events ++ detectNewline f.toFile) =
         some (fileOfEvents (f.toFile.events ++ [.newline (detectNewline f.toFile)])) := by
       by_cases hnl : detectNewline f.toFile = [10]
       · rw [hnl]
-        refine fileFromBytes_app_eqG (Or.inl rfl) eofOk_lf isGoodEndLf_toReal hs hbom hcr hsec ⟨e, hle, ?_⟩
+        refine fileFromBytes_app_eqH (Or.inl rfl) eofOk_lf isGoodEndLf_toReal hs hnb hsec ⟨e, hle, ?_⟩
         rcases hv with hv | hv | hv | hv
         · exact Or.inl (by simp [isGoodEndLf, isGoodEnd, hv])
         · exact Or.inl (by simp [isGoodEndLf, isGoodEnd, hv])
         · exact Or.inr hv
         · exact Or.inl (by simp [isGoodEndLf, hv.1])
-      · refine fileFromBytes_app_eq2 (detectNewline_NL f.toFile) hs hbom hcr hsec ⟨e, hle, ?_⟩
+      · refine fileFromBytes_app_eqH (detectNewline_NL f.toFile) (eofOk_goodEnd (detectNewline_NL f.toFile)) isGoodEnd_toReal hs hnb hsec ⟨e, hle, ?_⟩
         rcases hv with hv | hv | hv | hv
         · exact Or.inl (by simp [isGoodEnd, hv])
         · exact Or.inl (by simp [isGoodEnd, hv])
